@@ -579,6 +579,53 @@ class Facts:
         # closures passed as arguments are attributed to the constructing body already
         return False
 
+    def must_call(self, bid, pats, _stack=None):
+        """every path from the entry of body `bid` to a (non-error) return passes a call that IS one of
+        `pats` or whose (single, resolved, in-crate) callee itself must call one of them.  Calls through
+        dyn / unresolved receivers never count.  Recursion through cycles yields False."""
+        pats = frozenset(pats)
+        key = ("must", bid, pats)
+        if key in self._reach_cache:
+            return self._reach_cache[key]
+        _stack = _stack or set()
+        if bid in _stack:
+            return False
+        _stack = _stack | {bid}
+        b = self.bodies[bid]
+        good = set()
+        for c in b.calls:
+            if c.bb not in b.live:
+                continue
+            if c.names & pats:
+                good.add(c.bb)
+                continue
+            if len(c.targets) == 1 and c.targets[0] in self.canon_to_id and not c.callee.get("dyn") and not c.callee.get("unres"):
+                if self.must_call(self.canon_to_id[c.targets[0]], pats, _stack):
+                    good.add(c.bb)
+        # exits: blocks assigning _0 an Ok / plain value; fall back to Return blocks
+        exits_ = []
+        for i, j, lhs, rv, _ in b.assigns():
+            if lhs == [0] and i in b.live:
+                if rv[0] == "agg" and rv[3] and rv[3].get("adt") == "std::result::Result" and rv[3]["variant"] == "Err":
+                    continue
+                exits_.append(i)
+        for c in b.calls:
+            if c.dest == [0] and c.bb in b.live and not any("from_residual" in t for t in c.targets):
+                exits_.append(c.bb)
+        if not exits_:
+            exits_ = list(b.rets)
+        r = b.reachable_from([0], avoid=good)
+        res = bool(good) and not any(x in r and x not in good for x in exits_)
+        self._reach_cache[key] = res
+        return res
+
+    def call_must_reach(self, c, pats):
+        if c.names & set(pats):
+            return True
+        if len(c.targets) == 1 and c.targets[0] in self.canon_to_id and not c.callee.get("dyn") and not c.callee.get("unres"):
+            return self.must_call(self.canon_to_id[c.targets[0]], pats)
+        return False
+
     def may_reach(self, bid, *pats):
         return bool(self.reach_names(bid) & set(pats))
 
